@@ -80,6 +80,7 @@ class World:
         self.clause_cache = {}
         self.trusted_used = set()
         self.havoc_callables = {}
+        self.model_prefs_fns = []
         from . import builtins_lib
         builtins_lib.install(self)
 
@@ -342,6 +343,16 @@ class World:
             out["str"] = "".join(chars)
         elif tg in ("list", "tuple", "dict", "set"):
             out["len"] = ev(sym.v_len(v.t)).as_long()
+        elif tg == "other":
+            try:
+                from theories.val import ISINST
+                inst = []
+                for code, o in enumerate(sym.ATOMS.objs):
+                    if isinstance(o, type) and z3.is_true(ev(ISINST(v.t, code))):
+                        inst.append(sym.ATOMS._key(o))
+                out["instance_of"] = inst
+            except Exception:
+                pass
         return {"__val__": out}
 
     def concretize_float(self, model, v):
